@@ -37,6 +37,7 @@ fn listed(p: &DcpsDomainParticipant, i: u8) -> usize {
 #[kani::stub(critical_section::acquire, super::support_cs::cs_acquire)]
 #[kani::stub(critical_section::release, super::support_cs::cs_release)]
 fn c17_stale_removal_one() {
+    s1::link_drop_glue();
     let cap = sp::Capture::new();
     let mut p = sp::participant(&cap, 0);
     let lease = s1::any_duration();
@@ -80,6 +81,7 @@ fn c17_stale_removal_one() {
 #[kani::stub(critical_section::acquire, super::support_cs::cs_acquire)]
 #[kani::stub(critical_section::release, super::support_cs::cs_release)]
 fn c17_stale_removal_two() {
+    s1::link_drop_glue();
     let cap = sp::Capture::new();
     let mut p = sp::participant(&cap, 0);
     let zero = Duration::new(0, 0);
@@ -141,6 +143,7 @@ fn has_reliable_proxy(w: &crate::rtps::stateful_writer::RtpsStatefulWriter) -> b
 #[kani::stub(critical_section::release, super::support_cs::cs_release)]
 #[kani::stub(tracing::level_filters::LevelFilter::current, super::support_qos::tracing_off)]
 fn c17_spdp_add() {
+    s1::link_drop_glue();
     let cap = sp::Capture::new();
     let local_id: i32 = kani::any();
     let local_tagged: bool = kani::any();
@@ -224,6 +227,7 @@ fn c17_spdp_add() {
 #[kani::stub(crate::dcps::dcps_domain_participant::participant_entity::DcpsDomainParticipant::announce_participant, super::support_part1::announce_participant_stub)]
 #[kani::stub(tracing::level_filters::LevelFilter::current, super::support_qos::tracing_off)]
 fn c17_spdp_ignored() {
+    s1::link_drop_glue();
     let cap = sp::Capture::new();
     let mut p = sp::participant(&cap, 0);
     p.domain_participant.enabled = true;
@@ -266,6 +270,7 @@ fn c17_spdp_ignored() {
 #[kani::stub(critical_section::release, super::support_cs::cs_release)]
 #[kani::stub(tracing::level_filters::LevelFilter::current, super::support_qos::tracing_off)]
 fn c17_spdp_ignore_not_enabled() {
+    s1::link_drop_glue();
     let cap = sp::Capture::new();
     let mut p = sp::participant(&cap, 0);
     p.domain_participant.discovered_participant_list.push(s1::discovered(1, Duration::new(100, 0), Time::new(1, 0)));
